@@ -156,9 +156,11 @@ Inductive sop :=
 | OAdd (name : text)                       (* add_process_group(config) *)
 | ORemove (name : text) (unstopped : bool) (* remove_process_group(name); unstopped: the group still has unstopped processes *)
 | ORunforever                              (* entry of runforever *)
-| OPass (mood : Z).                        (* one pass of the main loop with options.mood *)
+| OPass (mood : Z)                         (* one pass of the main loop with options.mood *)
+| OAddRaises (name : text)                 (* add_process_group(config) whose make_group() raises (e.g. FastCGI socket) *)
+| ORemoveRaises (name : text).             (* remove_process_group(name) of a stopped group whose before_remove() raises *)
 
-Inductive sres := RTrue | RFalse | RNone | RKeyError.
+Inductive sres := RTrue | RFalse | RNone | RKeyError | RException.
 
 Definition sup_step (s : sup) (o : sop) : sup * sres * list notification :=
   match o with
@@ -175,6 +177,12 @@ Definition sup_step (s : sup) (o : sop) : sup * sres * list notification :=
     if (mood <? supervisor_running) && negb (s_stopping s)
     then (mkSup (s_groups s) true, RNone, [(SupervisorStoppingEvent, ASupervisor)])
     else (s, RNone, [])
+  | OAddRaises n =>
+    (* the exception leaves add_process_group before the group is stored and before notify *)
+    if negb (text_in n (s_groups s)) then (s, RException, []) else (s, RFalse, [])
+  | ORemoveRaises n =>
+    (* before_remove() raises before `del` and before notify *)
+    if negb (text_in n (s_groups s)) then (s, RKeyError, []) else (s, RException, [])
   end.
 
 Fixpoint sup_run (s : sup) (l : list sop) : list notification :=
